@@ -78,18 +78,21 @@ def run(run, replay=None):
         run.count(text, nontrivial=len(text) > 3)
         cid += 1
     run.sample({'kind': 'text', 'input': text[:80]})
-    can = []
-    pool = [c for c in cases if c['kind'] == 'file' and len(c['tokens']) > 4]
-    for k, c in enumerate(rng.sample(pool, 8)):
-        z = copy.deepcopy(c)
-        z['canary_of'] = z['id']
-        z['id'] = 'canary-%d' % k
-        if k % 2:
-            z['tokens'].pop(rng.randrange(len(z['tokens'])))
-        else:
-            tg = [t for t in z['tokens'] if t['t'] == 'Token.Name.Tag']
-            tg[0]['t'] = 'Token.Text'
-        can.append(z)
+    def _mk_canaries():
+        can = []
+        pool = [c for c in cases if c['kind'] == 'file' and len(c['tokens']) > 4]
+        for k, c in enumerate(rng.sample(pool, 8)):
+            z = copy.deepcopy(c)
+            z['canary_of'] = z['id']
+            z['id'] = 'canary-%d' % k
+            if k % 2:
+                z['tokens'].pop(rng.randrange(len(z['tokens'])))
+            else:
+                tg = [t for t in z['tokens'] if t['t'] == 'Token.Name.Tag']
+                tg[0]['t'] = 'Token.Text'
+            can.append(z)
+        return can
+    can = run.tolerant(_mk_canaries)
     run.judge('Trace_Lex', cases + can, cat.tables(), canary_ids=[c['id'] for c in can],
               describe=lambda c: {'kind': c['kind'], 'input': ''.join(chr(x) for x in c['input'])[:300]})
     run.assumptions += ['pygments\' JsonLexer and DiffLexer are black boxes']
